@@ -18,6 +18,11 @@ COVERED = {
     ("src/errors.rs", "fmt", "errors"): "sorted_by index before formatting",
     ("src/element.rs", "get_attrs", "self.attrs.to_vec()"): "Vec -> HashMap collect (no hash iteration)",
 }
+# arguments that rest on the text around the iteration: the statement must still read like this (white space
+# ignored), otherwise the argument no longer applies and the site counts as not covered (UNDECIDED, never an alarm)
+PINNED = {
+    ("src/errors.rs", "fmt", "errors"): r"errors\.iter\(\)\.sorted_by\(\|a,b\|a\.0\.cmp\(b\.0\)\)",   # sorted by the map's KEY (unique: a total order)
+}
 HASH_NAMES = [r"tb\.classes", r"self\.classes", r"self\.elements", r"\w+\.get_attrs\(\)", r"err_list", r"element_errors", r"errors",
               r"elem_map", r"original_map", r"\w*\.vars", r"orig_svg_attrs", r"element_set", r"class_set", r"var_scope"]
 
@@ -88,6 +93,9 @@ def scan(repo="/repo"):
                 continue
             fn = enclosing_fn(src, mm.start())
             key = (rel, fn, expr)
+            if key in PINNED and not re.match(PINNED[key], "".join(text[mm.start(2 if mm.group(2) else 1):mm.start() + 400].split())):
+                unknown.append((rel, fn, expr + " (the statement no longer reads as the order-insensitivity argument assumes)"))
+                continue
             (found if key in COVERED else unknown).append(key)
     # an error value holding a hash map (MultiError) rendered with Debug shows the map's hash order: `fn main() -> Result`
     # prints its error that way, and so does `{e:?}` / `{:?}` applied to a transform error in the front ends
